@@ -646,6 +646,11 @@ fn reassociate_applications<'a>(acc: Option<Term<'a>>, term: &Term<'a>) -> Term<
             ),
             errors: vec![],
         },
+        Variant::Application(_, _) if acc.is_some() && term.group => {
+            // The term was explicitly grouped, so it's an operand of the enclosing chain rather
+            // than a continuation of it [ref:group_flag].
+            reassociate_applications(None, term)
+        }
         Variant::Application(applicand, argument) => {
             return if argument.group {
                 if let Some(acc) = acc {
@@ -918,6 +923,11 @@ fn reassociate_products_and_quotients<'a>(
             ),
             errors: vec![],
         },
+        Variant::Product(_, _) | Variant::Quotient(_, _) if acc.is_some() && term.group => {
+            // The term was explicitly grouped, so it's an operand of the enclosing chain rather
+            // than a continuation of it [ref:group_flag].
+            reassociate_products_and_quotients(None, term)
+        }
         Variant::Product(term1, term2) => {
             return if term2.group {
                 if let Some(acc) = acc {
@@ -1180,6 +1190,11 @@ fn reassociate_sums_and_differences<'a>(
             variant: Variant::Negation(Rc::new(reassociate_sums_and_differences(None, subterm))),
             errors: vec![],
         },
+        Variant::Sum(_, _) | Variant::Difference(_, _) if acc.is_some() && term.group => {
+            // The term was explicitly grouped, so it's an operand of the enclosing chain rather
+            // than a continuation of it [ref:group_flag].
+            reassociate_sums_and_differences(None, term)
+        }
         Variant::Sum(term1, term2) => {
             return if term2.group {
                 if let Some(acc) = acc {
